@@ -54,7 +54,7 @@ func (in *Interp) faultAtCaller(what string) {
 	n := len(in.frames)
 	if n >= 2 && in.frames[n-2].isLua {
 		f := in.frames[n-2]
-		in.throw(&Opaque{Kind: "fault", Lo: f.lo, Hi: f.hi, Rest: what})
+		in.throw(&Opaque{Kind: "fault", Lo: f.lo, Hi: f.hi, ELo: f.elo, EHi: f.ehi, Rest: what})
 	}
 	in.throw(&Opaque{Kind: "anystring", Rest: what})
 }
@@ -556,7 +556,7 @@ func (in *Interp) where(level int, msg string) Value {
 			in.indet("error position level across a tail call")
 		}
 	}
-	return &Opaque{Kind: "pos", Lo: f.lo, Hi: f.hi, Rest: msg}
+	return &Opaque{Kind: "pos", Lo: f.lo, Hi: f.hi, ELo: f.elo, EHi: f.ehi, Rest: msg}
 }
 
 func (in *Interp) fenvTarget(a []Value, fname string, get bool) Value {
